@@ -162,7 +162,9 @@ class MagicMemoryRTL( Component ):
 
       for i in range(nports):
 
-        if s.req_stalls[i].send.val:
+        # only process a request in the cycle it is actually handed over;
+        # otherwise a back-pressured request is executed again every cycle
+        if s.req_stalls[i].send.val & s.req_stalls[i].send.rdy:
 
           # Dequeue memory request message
 
